@@ -5,7 +5,7 @@ import asyncgen
 import vlib
 
 PID = "C14"
-THEOREMS = []
+THEOREMS = ['C14_no_poll_after_dispose', 'C14_never_polled_again', 'C14_no_panic', 'C14_counters_released', 'C14_counter_invariant_reachable']
 
 BASES = [
     [("scope", 9, [("sus", 1, [("task", 1, 2)])]), ("sus", 2, [("scope", 8, [("task", 2, 2)])])],
@@ -88,7 +88,7 @@ def oracle(prog, steps, lines):
 
 def main(argv):
     a, seed = vlib.args(argv)
-    chk = vlib.Check(PID, a.tier, seed, "other")
+    chk = vlib.Check(PID, a.tier, seed, "proof")
     rng = random.Random(seed * 6007 + 14)
     chk.trusted = ["Coq 8.16.1 kernel + vm_compute", "hand-written LTS coq/theories/Async/Suspense.v tied to sycamore-futures by this correspondence run",
                    "harness/futures-driver (instrumented futures log every poll; panic hook sees panics swallowed by tokio)", "tools/asyncgen.py, tools/c14.py",
@@ -96,12 +96,8 @@ def main(argv):
     chk.rule = ("fault enumeration: 5 base trees of scopes / suspense boundaries (depth <= 3) with tasks of 1-3 chained awaits; for several orders of the "
                 "awaits, a scope disposal inserted at EVERY position of the schedule for EVERY scope (pairs of disposals in thorough); the executor is "
                 "drained at the end; non-trivial = the disposal hit a scope with a pending task; distinct = distinct (tree, schedule)")
-    broken = []
-    ok, out = vlib.coq_make(["theories/Async/Suspense.vo"])
-    chk.checker_cmd = "make -C coq theories/Async/Suspense.vo"
-    chk.obligation("coq build theories/Async/Suspense.vo", ok, out)
-    if not ok:
-        broken.append("model does not compile")
+    ok, msg = vlib.proof_step(chk, "C14", ["theories/Props/C14.vo"], THEOREMS)
+    broken = [] if ok else ["theorem: " + msg]
     okb, outb, binp = vlib.cargo_build("futures-driver")
     chk.obligation("cargo build futures-driver against /repo", okb, outb)
     if not okb:
@@ -114,12 +110,12 @@ def main(argv):
         chk.violation({"property": PID, "broken": "driver run", "detail": str(e)}, no_input=True)
         return chk.finish()
     model = None
-    if not broken:
-        try:
-            model = asyncgen.run_model(PID, cases)
-        except RuntimeError as e:
-            broken.append("model evaluation: " + str(e)[-500:])
-            chk.obligation("model evaluation", False, str(e))
+    vlib.coq_make(["theories/Async/Suspense.vo"])
+    try:
+        model = asyncgen.run_model(PID, cases)
+    except RuntimeError as e:
+        broken.append("model evaluation: " + str(e)[-500:])
+        chk.obligation("model evaluation", False, str(e))
     mism, orfail = [], []
     for i, ((prog, steps), lines) in enumerate(zip(cases, impl)):
         key = asyncgen.sx_nodes(prog) + asyncgen.sx_steps(steps)
